@@ -110,3 +110,12 @@ Definition empty_nowrap (o : pop) : bool :=
 Definition no_empty_nowrap (ops : list pop) : bool := forallb (fun o => negb (empty_nowrap o)) ops.
 
 Definition nonneg_dict (d : dict) : bool := forallb (fun kt => forallb (fun v => 0 <=? v) (snd kt)) d.
+
+(* ------------------------------------------------ vocabulary of the independence statements *)
+(* does the call concern function name f (cache_clear() without a name concerns every name) *)
+Definition touches (f : bytes) (o : wop) : bool :=
+  match o with WRun f' _ => beqb f' f | WClear f' => beqb f' f | WClearAll => true end.
+Definition untouched (f : bytes) (ops : list wop) : bool := forallb (fun o => negb (touches f o)) ops.
+(* answers given to the calls that concern name f *)
+Definition answers_for {A} (f : bytes) (ops : list wop) (tr : list A) : list A :=
+  map snd (filter (fun p => touches f (fst p)) (combine ops tr)).
